@@ -10,7 +10,8 @@ from hypothesis import strategies as st
 from vlib import gen, model, runner
 from vlib import universe as U
 
-ROUTES = ('flatten', 'pickle', 'collection', 'transform_id', 'compose_leaf', 'self_broadcast', 'copy', 'deepcopy', 'with_path')
+ROUTES = ('flatten', 'pickle', 'collection', 'transform_id', 'compose_leaf', 'self_broadcast', 'copy', 'deepcopy', 'with_path',
+          'child_of_wrapper', 'children_of_wrapper')
 
 
 def releaf(draw, desc):
@@ -64,6 +65,10 @@ def spec_via(route, tree, cfg, m):
             return spec
         if route == 'with_path':
             return optree.tree_flatten_with_path(tree, **kw)[2]
+        if route == 'child_of_wrapper':
+            return optree.tree_structure([0, [tree], 1], **kw).child(1).child(0)      # (lists: no predicate of the family fires on them)
+        if route == 'children_of_wrapper':
+            return optree.tree_structure([tree, 0, 0], **kw).children()[0]
         if route == 'pickle':
             return pickle.loads(pickle.dumps(spec))
         if route == 'transform_id':
